@@ -53,8 +53,11 @@ def evaluate(root):
             if n.content is not None and n.parent is not None and n.parent.name == "dataset":
                 t = n.content.replace("\xa0", " ")
                 words = [w for w in t.split(" ") if w.strip() != ""]
-                if any(c in t for c in "\t\n\r\x0b\x0c") or any(ch.isspace() and ch != " " for ch in t):
-                    masked.add(("TITLE_TOO_SHORT", id(n)))  # what counts as a word separator besides the space is not stated
+                if (len(t.split()) < 5) != (len(words) < 5):
+                    # what counts as a word separator besides the space is not stated: the verdict is only demanded where the two
+                    # readings (separated by spaces / separated by any white space) agree.  A token that is white space only is
+                    # a word under neither reading.
+                    masked.add(("TITLE_TOO_SHORT", id(n)))
                 if len(words) < 5:
                     warn("TITLE_TOO_SHORT", n)
         elif nm == "dataset":
@@ -105,31 +108,33 @@ def evaluate(root):
             if not any(c.content for c in kids(n, "entityDescription")):
                 warn("DATATABLE_DESCRIPTION_MISSING", n)
             phys = kids(n, "physical")
-            if len(phys) > 1:
-                for code in ("DATATABLE_SIZE_MISSING", "DATATABLE_MD5_CHECKSUM_MISSING", "DATATABLE_RECORD_DELIMITER_MISSING"):
-                    masked.add((code, id(n)))  # which physical is meant when they differ is not stated
-            p = phys[0] if phys else None
-            size = [c for c in (p.children if p else []) if c.name == "size"]
-            auth = [c for c in (p.children if p else []) if c.name == "authentication"]
-            if len({bool(a.content) for a in auth}) > 1:
-                masked.add(("DATATABLE_MD5_CHECKSUM_MISSING", id(n)))
-            if not any(c.content for c in size):
-                warn("DATATABLE_SIZE_MISSING", n)
-            if not any(c.content for c in auth):
-                warn("DATATABLE_MD5_CHECKSUM_MISSING", n)
+
+            def lacks(p):
+                """(size missing, checksum missing, record delimiter missing, unspecified codes) read off one physical (or none)."""
+                unspec = set()
+                size = [c for c in (p.children if p else []) if c.name == "size"]
+                auth = [c for c in (p.children if p else []) if c.name == "authentication"]
+                if len({bool(a.content) for a in auth}) > 1:
+                    unspec.add("DATATABLE_MD5_CHECKSUM_MISSING")
+                delims = []
+                if p is not None:
+                    delims += kids(p, "recordDelimiter")
+                    for df in kids(p, "dataFormat"):
+                        for tf in kids(df, "textFormat"):
+                            delims += kids(tf, "recordDelimiter")
+                    if len(kids(p, "dataFormat")) > 1 or any(len(kids(df, "textFormat")) > 1 for df in kids(p, "dataFormat")) \
+                            or len({bool(d.content) for d in delims}) > 1:
+                        unspec.add("DATATABLE_RECORD_DELIMITER_MISSING")
+                return (not any(c.content for c in size), not any(c.content for c in auth), not any(d.content for d in delims), unspec)
+
+            reads = [lacks(p) for p in phys] or [lacks(None)]
+            for k, code in enumerate(("DATATABLE_SIZE_MISSING", "DATATABLE_MD5_CHECKSUM_MISSING", "DATATABLE_RECORD_DELIMITER_MISSING")):
+                if len({r[k] for r in reads}) > 1 or any(code in r[3] for r in reads):
+                    masked.add((code, id(n)))  # which physical (authentication, delimiter) is meant when they differ is not stated
+                if reads[0][k]:
+                    warn(code, n)
             if not any(c.content for c in kids(n, "numberOfRecords")):
                 warn("DATATABLE_NUMBER_OF_RECORDS_MISSING", n)
-            delims = []
-            if p is not None:
-                delims += kids(p, "recordDelimiter")
-                for df in kids(p, "dataFormat"):
-                    for tf in kids(df, "textFormat"):
-                        delims += kids(tf, "recordDelimiter")
-                if len(kids(p, "dataFormat")) > 1 or any(len(kids(df, "textFormat")) > 1 for df in kids(p, "dataFormat")) \
-                        or len({bool(d.content) for d in delims}) > 1:
-                    masked.add(("DATATABLE_RECORD_DELIMITER_MISSING", id(n)))
-            if not any(d.content for d in delims):
-                warn("DATATABLE_RECORD_DELIMITER_MISSING", n)
         elif nm == "description":
             if n.parent is not None and n.parent.name in DESCRIPTION_PARENTS:
                 pieces = [x for x in [n.content] + [p.content for p in descendants(n, "para")]
